@@ -46,7 +46,7 @@ def adversary(module, recs, res, cfg="Adv.cfg", nshards=16, timeout=2400, tags=(
     sc = vlib.scratch_dir()
     files = []
     # balance shards by a rough cost estimate (bigger bound / more edges = costlier)
-    order = sorted(recs, key=lambda r: -(len(r["edges"]) * (1 + max(0, r.get("bound", 1)))))
+    order = sorted(recs, key=lambda r: -(len(r.get("edges", [1])) * (1 + max(0, r.get("bound", 1)))))
     for i, sh in enumerate(vlib.shard(order, nshards)):
         p = os.path.join(sc, f"adv{i}.ndjson")
         vlib.write_ndjson(p, sh)
